@@ -23,4 +23,6 @@ EXTRA = {
     # Props/C10StreamsSrc.v), whose method calls on Key / Scale objects run the bodies of Generated/TablesTonal.v
     "C10": (("gen_tables_step.py", "gen_tables_tonal.py", "gen_tables_steptonal.py"), ()),
     "C12": (("gen_tables_step.py",), ()),
+    # the stochastic classes: chance.py __next__ bodies -> Generated/TablesStepchance.v, Pat/ChanceSrc.v, Props/C11Src.v
+    "C11": (("gen_tables_stepchance.py",), ()),
 }
